@@ -291,6 +291,13 @@ class Run:
         w = self.world
         inst = w.instances.get(nick)
         if inst is None or not inst.alive:
+            spec = w.spec_of(nick)
+            if self.knobs.get('host_reboot_p') and self.rng.random() < self.knobs['host_reboot_p'] and \
+                    sum(1 for s in w.specs if s['node'] == spec['node']) == 1:
+                # the whole host has rebooted (the instance is alone on its node): its monotonic clock starts again
+                # near zero, far below what its previous incarnation stamped its messages with
+                spec['mono_off'] = round(-(w.now - BASE_TIME) + self.rng.uniform(5.0, 90.0), 3)
+                self.count('host_reboots')
             w.start_instance(nick)
             self.last_membership_change = w.now
 
